@@ -46,12 +46,19 @@ pub fn unit_begin(kind: &'static str) {
         s.ensure_task(me);
         s.units_total += 1;
         // For a time-based plan the flip instant is the moment the clock passes T, whether or
-        // not somebody polled since.
-        let after_flip = s.flipped
-            || match s.cfg.abort {
-                AbortPlan::AtTime(t) => s.clock >= t,
-                _ => false,
-            };
+        // not somebody polled since: the predicate would answer true from then on.
+        if !s.flipped {
+            if let AbortPlan::AtTime(t) = s.cfg.abort {
+                if s.clock >= t {
+                    s.flipped = true;
+                    s.flip_step = Some(s.step);
+                    s.flip_poll = Some(s.polls + 1);
+                    s.live_at_flip = s.live_now;
+                    s.count("abort_flip");
+                }
+            }
+        }
+        let after_flip = s.flipped;
         let had_true = s.tasks[me].got_true;
         if s.flipped {
             s.units_after_flip += 1;
